@@ -26,11 +26,11 @@ type c02Rebuild struct {
 
 func init() {
 	register(&Prop{ID: "C02", Run: c02Run,
-		Rule: "documents over path-safe keys (a second pool holds digit-only and '-'-prefixed keys: leading zeros, signs, next to their canonical spelling; a third pool holds letters of any script and case — a key over 'letters, digits, _ and -' may be größe, ключ, 名前 or 𝛼: letters in 2, 3 and 4 UTF-8 bytes, case twins such as maxConn / maxconn, prefix-related siblings — of which every document draws four or five so that they meet) weighted towards nested lists (depth <= 4) and lists of containers, a fifth of them with value-range scalars at the leaves (vr_util.go: both float zeros, 2^53 / 2^63 / 2^64 neighbours, blank / case / Unicode variants of strings, 20+ digit strings, boolean spellings); documents are built node by node, decoded with FromMap, or (dag) built through the builder API with ONE node object attached at two or three positions (a composite subtree copied to a second place, then all structurally equal subtrees built once: what AddValue(k1, n); AddValue(k2, n) produces) — a document's scalar POSITIONS are counted, not its node objects; for every flattened (path, leaf): Lookup, Child chain, pointer evaluation, props.ParsePath; Search with equality and type predicates; rebuild from the flattened pairs under all permutations when <= 5 leaves (else 20 seeded shuffles) for documents whose list items all contain a scalar. Non-trivial: the document has a list or depth >= 2; distinct by case hash.",
+		Rule: "documents over path-safe keys (a second pool holds digit-only and '-'-prefixed keys: leading zeros, signs, next to their canonical spelling; a third pool holds letters of any script and case — a key over 'letters, digits, _ and -' may be größe, ключ, 名前 or 𝛼: letters in 2, 3 and 4 UTF-8 bytes, case twins such as maxConn / maxconn, prefix-related siblings — of which every document draws four or five so that they meet) weighted towards nested lists (depth <= 4) and lists of containers, a fifth of them with value-range scalars at the leaves (vr_util.go: both float zeros, 2^53 / 2^63 / 2^64 neighbours, blank / case / Unicode variants of strings, 20+ digit strings, boolean spellings); documents are built node by node, decoded with FromMap, or (dag) built through the builder API with ONE node object attached at two or three positions (a composite subtree copied to a second place, then all structurally equal subtrees built once: what AddValue(k1, n); AddValue(k2, n) produces) — a document's scalar POSITIONS are counted, not its node objects; for every flattened (path, leaf): Lookup, Child chain, pointer evaluation, props.ParsePath; Search with equality and type predicates; rebuild from the flattened pairs under all permutations when <= 5 leaves (else 20 seeded shuffles) for documents whose list items all contain a scalar.; searchseq: histories of 3-8 Search calls (and removals) over two or three documents with total predicates, predicates that type-assert and panic on a value of another type (the caller recovers), a predicate that gives up after n values and one that searches another document — every call that returns is compared with the filter of Flatten at that moment; bigrebuild: three fixed-count documents per run with a list of a little over 10^3, 10^4 and 10^5 items (thorough: also 2^17) (scalars, containers or lists as items), rebuilt from the flattened pairs in descending (the longest one) or shuffled order (implementation only). Non-trivial: the document has a list or depth >= 2; distinct by case hash.",
 		Assumptions: []string{"keys are non-empty over letters (Unicode category L, any script), ASCII digits, '_' and '-'; the Lean theorems are stated for arbitrary key strings free of '.', '[' and ']'",
 			"the rebuild clause ranges over documents in which every list item contains at least one scalar"}})
 	evals["C02"] = c02Eval
-	shrinkers["C02"] = shrinkJSON
+	shrinkers["C02"] = c02Shrink
 }
 
 func c02Gen() *DocGen {
@@ -202,6 +202,7 @@ func c02Run(c *Ctx) {
 			}
 		}
 	}
+	c02RunMore(c) // c02_more.go: histories of Search calls (incl. predicates that panic), rebuilds of documents with long lists
 }
 
 func permutations(a []int, f func([]int)) {
@@ -221,6 +222,9 @@ func permutations(a []int, f func([]int)) {
 }
 
 func c02Eval(c *Ctx, kind string, raw []byte) {
+	if c02EvalMore(c, kind, raw) {
+		return
+	}
 	switch kind {
 	case "addr":
 		var p c02Addr
